@@ -26,6 +26,8 @@ A4 = 4.0 * 4.0 * 5.67051e-5 / 2.99792458e10
 SPECS = [
     dict(name='guderley-s3', fam='guderley', solver=cat.GUDERLEY, params=dict(geometry=3, gamma=3.0, rho0=1.0), pool=[0.2, 0.5, 0.9, 1.4], times=[0.4, 0.9], tol=1e-9),
     dict(name='guderley-c2', fam='guderley', solver=cat.GUDERLEY, params=dict(geometry=2, gamma=2.0, rho0=2.0), pool=[0.2, 0.5, 0.9, 1.4], times=[0.4, 0.9], tol=1e-9),
+    dict(name='guderley-c3', fam='guderley', solver=cat.GUDERLEY, params=dict(geometry=2, gamma=3.0, rho0=1.0), pool=[0.2, 0.5, 0.9, 1.4], times=[0.4, 0.9], tol=1e-9),
+    dict(name='guderley-s2', fam='guderley', solver=cat.GUDERLEY, params=dict(geometry=3, gamma=2.0, rho0=1.0), pool=[0.2, 0.5, 0.9, 1.4], times=[0.4, 0.9], tol=1e-9),
     dict(name='rmtv-default', fam='rmtv', solver=cat.RMTV, params={}, pool=[0.1, 0.3, 0.44, 0.46, 0.8, 0.95], times=[0.0], tol=1e-9),
     dict(name='rmtv-rf', fam='rmtv', solver=cat.RMTV, params=dict(rf=0.5, g0=2.0), pool=[0.1, 0.24, 0.26, 0.45, 0.6], times=[0.0], tol=1e-9),
     dict(name='suolson-default', fam='suolson', solver='exactpack.solvers.suolson.suolson.SuOlson', params={}, pool=[0.1, 0.5, 1.0, 2.0, 6.0, 12.0], times=[1e-10, 3e-10], tol=1e-9),
@@ -51,6 +53,18 @@ SPECS = [
     dict(name='sedov-spherical', fam='sedov', solver='exactpack.solvers.sedov.SphericalSedov', params={}, pool=[0.2, 0.5, 0.8, 0.95, 1.2], times=[1.0, 0.5], tol=1e-9, fixed_far=True),
     dict(name='sedov-planar-omega', fam='sedov', solver=cat.SEDOV, params=dict(geometry=1, gamma=1.6, omega=0.3, eblast=0.2), pool=[0.2, 0.5, 0.8, 0.95, 1.2], times=[1.0, 0.5], tol=1e-9,
          fixed_far=True),
+    dict(name='sedov-vacuum', fam='sedov', solver=cat.SEDOV, params=dict(geometry=3, gamma=1.4, omega=2.4), pool=[0.1, 0.2, 0.5, 0.8, 0.95, 1.2], times=[1.0, 0.5], tol=1e-9,
+         fixed_far=True),
+    dict(name='sedov-singular', fam='sedov', solver=cat.SEDOV, params=dict(geometry=3, gamma=1.4, omega=7.0 / 3.0), pool=[0.2, 0.5, 0.8, 0.95, 1.2], times=[1.0, 0.5], tol=1e-9,
+         fixed_far=True),
+    dict(name='ehep', fam='ehep', solver=cat.EHEP, params={}, pool=[0.02, 0.4, 0.9, 1.3, 1.6, 1.9, 2.6, 3.0], times=[2.0, 0.7], tol=1e-13),
+    dict(name='ehep-piston', fam='ehep', solver=cat.EHEP, params=dict(up=0.1), pool=[0.02, 0.15, 0.4, 0.9, 1.3, 1.9, 2.6], times=[2.0, 0.7], tol=1e-13),
+    dict(name='mader', fam='mader', solver=cat.MADER, params={}, pool=[0.0, 1.0, 2.0, 3.0, 4.0, 5.0], times=[6.25e-6, 3e-6], tol=1e-12, whole_pool=True),
+    dict(name='piston', fam='piston', solver=cat.PISTON, params={}, pool=[0.05, 0.3, 0.45, 0.6, 0.9, 1.0], times=[1.2, 0.75], tol=1e-13, fixed_far=True),   # (documented: t <= max(x) / wv_el)
+    dict(name='noh2', fam='noh', solver=cat.NOH2 + 'Noh2', params=dict(geometry=3, gamma=1.4), pool=[0.05, 0.2, 0.5, 1.0], times=[0.3, 0.6], tol=1e-13),
+    dict(name='kenamond2', fam='kenamond', solver=cat.KEN2, params={}, pool=[[4.0, 1.0], [-4.0, -3.0], [0.0, -6.0], [1.0, 1.0]], times=[0.0], tol=1e-13),
+    dict(name='dsd-cyl', fam='dsd', solver=cat.DSDCYL, params={}, pool=[[1.5, 0.5], [-3.0, 1.0], [0.5, -4.0]], times=[0.0], tol=1e-13),
+    dict(name='rod1d', fam='heat', solver=cat.ROD, params=dict(Nsum=60), pool=[0.0, 0.3, 0.9, 1.4, 2.0], times=[0.1, 0.4], tol=1e-12),
     dict(name='noh-cyl', fam='noh', solver=cat.NOH + 'Noh', params=dict(geometry=2, gamma=1.4, rho0=2.0, u0=-3.0), pool=[0.05, 0.2, 0.5, 1.0], times=[0.3, 0.6], tol=1e-13),
     dict(name='cog8', fam='cog', solver='exactpack.solvers.cog.cog8.Cog8', params=dict(geometry=2, alpha=-1.5, beta=2.0), pool=[0.3, 0.7, 1.1], times=[0.4, 0.9], tol=1e-13),
     dict(name='sdrz', fam='sdrz', solver=cat.SDRZ, params={}, pool=[0.05, 0.2, 0.35, 0.42], times=[0.5, 1.3], tol=1e-12),
@@ -72,6 +86,8 @@ def batch_points(spec, sel, k):
         pts = pool + [pool[k % len(pool)]]
     else:
         pts = pool
+    if spec.get('whole_pool'):     # Mader: the cell width is taken from the batch (documented), so every batch is the whole (uniform) grid
+        return list(spec['pool'])
     if spec.get('fixed_far'):      # Sedov: documented grid dependence on max(r): every batch carries the same largest point
         pts = [p for p in pts if p != max(pool)] + [max(pool)]
     return pts
@@ -182,7 +198,7 @@ class HistoryMachine(RuleBasedStateMachine):
         spec = SPECS[i]
         s = make_instance(spec, self.shared)
         inst = dict(i=i, obj=s, id=len(self.history))
-        self.history.append(['construct', i])
+        self.history.append(['construct', spec['name']])
         self.fam_seen.append((spec['fam'], inst['id']))
         return inst
 
@@ -306,8 +322,9 @@ def replay_history(case):
     last = None
     for pos, h in enumerate(case['history']):
         if h[0] == 'construct':
-            spec = SPECS[h[1]]
-            insts[pos] = dict(i=h[1], obj=make_instance(spec, shared))
+            i = [n for n, sp in enumerate(SPECS) if sp['name'] == h[1]][0]      # specs are referred to by name in recorded histories
+            spec = SPECS[i]
+            insts[pos] = dict(i=i, obj=make_instance(spec, shared))
         elif h[0] == 'reconstruct':
             spec = SPECS[insts[h[1]]['i']]
             insts[h[1]]['obj'] = make_instance(spec, shared)
@@ -363,6 +380,9 @@ def check_batch(case):
                 sc = max(float(np.nanmax(np.abs(np.asarray(full[k], float)))), 1e-300)
                 o.close('%s at a point is the same in every batch containing it' % k, float(a), float(b), 0.0, atol=tol * sc, regime=spec['name'])
     # singleton
+    if spec.get('whole_pool'):
+        o.nontrivial = True
+        return o
     pj = pool[case['j'] % len(pool)]
     single_pts = [pj] + ([max(spec['pool'])] if spec.get('fixed_far') and pj != max(spec['pool']) else [])
     single = cat.quiet(s, np.asarray(single_pts, float), t)
@@ -407,10 +427,65 @@ def check_mader_batch(case):
     return o
 
 
+# ---------------------------------------------------------------- every public class: singleton call vs whole batch
+@st.composite
+def all_classes_case(draw):
+    from .. import allsolvers
+    paths = [p for p in allsolvers.all_solver_classes() if allsolvers.SLOW.get(p, 0) < 10 and p not in allsolvers.UNCONSTRUCTIBLE and p not in allsolvers.UNUSABLE
+             and p not in allsolvers.STRUCTURED]
+    pk = sorted(set(p.split('.')[2] for p in paths))
+    pkg = draw(st.sampled_from(pk))
+    path = draw(st.sampled_from([p for p in paths if p.split('.')[2] == pkg]))
+    return dict(solver=path, u=draw(st.lists(uni(0.0, 0.999), min_size=16, max_size=16)), j=draw(st.integers(0, 11)))
+
+
+def check_all_classes(case):
+    from .. import allsolvers
+    o = Out()
+    path = case['solver']
+    rec = allsolvers.recipe(path, case['u'])
+    o.label(path.split('.')[2])
+    if rec is None or path.endswith('.Mader'):       # Mader: cell width from the batch (documented; see mader-grid-resolution)
+        return o
+    if path.rsplit('.', 1)[1] in ('Rectangle', 'Hutchens2', 'CylindricalSandwich'):
+        o.label('skipped:point-layout-finding-KF-C05-heat-2d-point-layout')      # these read an (N,2) request as (2,N): recorded under C05
+        return o
+    s = allsolvers.construct(path, rec['kwargs'], rec['special'])
+    pts = np.array(rec['points'], float)
+    N = pts.shape[1] if rec['layout'] == '2xN' else len(pts)
+    if N < 2:
+        return o
+    j = case['j'] % N
+    far = None
+    if '.sedov' in path or '.ep_piston.' in path:     # documented dependence on max(x): the singleton call carries the same largest point
+        far = int(np.argmax(pts))
+    full = cat.quiet(s, pts, rec['t'])
+    if rec['layout'] == '2xN':
+        single_pts = pts[:, [j]]
+    elif far is not None and far != j:
+        single_pts = pts[[j, far]]
+    else:
+        single_pts = pts[[j]]
+    single = cat.quiet(s, single_pts, rec['t'])
+    tol = 1e-6 if rec['batch_dependent'] else 1e-9
+    for k in full.dtype.names:
+        a, b = np.asarray(single[k])[0], np.asarray(full[k])[j]
+        if np.asarray(a).dtype.kind == 'f':
+            fk = np.asarray(full[k], float)
+            sc = max(float(np.nanmax(np.abs(fk))) if np.any(np.isfinite(fk)) else 0.0, 1e-300)
+            if not (np.isnan(a) and np.isnan(b)):
+                o.close('%s in a singleton call equals its value inside the batch' % k, float(a), float(b), 0.0, atol=tol * sc, regime=path.rsplit('.', 1)[1])
+        else:
+            o.true('%s in a singleton call equals its value inside the batch' % k, str(a) == str(b), regime=path.rsplit('.', 1)[1])
+    o.nontrivial = True
+    return o
+
+
 OBLIGATIONS = [
     Obligation('history-machine', runner=run_machine, check=replay_history, quick=192, thorough=3200, max_shards=16, min_per_shard=2),
     Obligation('batch-independence', batch_case(), check_batch, quick=240, thorough=6000, min_per_shard=4),
     Obligation('mader-grid-resolution', mader_batch_case(), check_mader_batch, quick=100, thorough=3000),
+    Obligation('all-classes-singleton-vs-batch', all_classes_case(), check_all_classes, quick=600, thorough=20000),
 ]
 OBLIGATIONS[0].cost = 100.0
 OBLIGATIONS[0].budget_s = {'quick': 420, 'thorough': 3300}
